@@ -89,10 +89,11 @@ HUGE = [2 ** 31 - 1, 2 ** 31, 2 ** 32 - 1, 2 ** 32, 2 ** 63 - 1, 2 ** 63, 2 ** 6
 IN_KINDS = ["fresh", "eofbit", "failbit", "badbit", "chunk1", "chunk2", "file", "throwend", "throwend1"]
 # kinds of paths of the scratch directory (harness/c01.cpp make_scratch, c01_env.cpp path_of_kind)
 PATH_KINDS = ["file0", "file5", "dir", "dir2", "sub", "trailing", "filetrailing", "missing", "dangling", "symfile", "symsym", "selfloop",
-              "loopa", "loopb", "symdir", "longname", "underfile", "underloop", "longpath", "missingparent", "emptypath"]
+              "loopa", "loopb", "symdir", "longname", "underfile", "underloop", "longpath", "missingparent", "emptypath", "weirdname", "relfile", "reldot",
+              "reldotdot", "reldir", "relmissing", "relunder"]
 WRITE_KINDS = ["new", "dir", "symdir", "underfile", "missingparent", "longname", "selfloop", "emptypath", "trailing", "filetrailing",
                "longpath", "underloop"]
-MKDIR_KINDS = ["new", "newnested"] + [k for k in PATH_KINDS if k not in ("missing", "missingparent")] + ["dot", "fifo"]
+MKDIR_KINDS = ["new", "newnested"] + [k for k in PATH_KINDS if k not in ("missing", "missingparent", "relmissing")] + ["dot", "fifo"]
 DEMANGLE_NAMES = ["i", "x", "", "_Z", "_ZN", "_Z1", "St6vectorIiSaIiE", "St6vectorIiSaIiEE", "N3c012d3", "N3c012d3E", "3foo3bar", "3foo", "_Z1fv",
                   "_Z1fv_", "abc", "-", "__", "9999999999a", "N", "S", "I", "T_", "PKc"]
 # time_t values: epoch, day / leap-day / year boundaries, 32-bit limits, the last and first second whose year fits tm_year, the limits
@@ -203,6 +204,7 @@ def batches(rng, tier):
     for k in ["fresh", "eofbit", "failbit", "badbit", "nullbuf", "file"] + [f"room{r}" for r in range(0, 6)] + [f"throwroom{r}" for r in range(0, 6)]:
         ops += [f"writechars {k} s:{'vwxyz'[:ln]}" for ln in range(0, 6)]
     ops += [f"writechars {k} s:{big}" for k in ("fresh", "file", "room9999", "room10000", "throwroom9999")]
+    ops += [f"writechars devfull s:{'q' * n}" for n in (0, 1, 100, 1023, 1024, 1025, 4096, 8191, 8192, 10000, 100000)]
     yield Batch("streams", ops, exhaustive=True,
                 note="read_chars (one and two reads), stream_to_string, io::get/peek/read, write_chars on streams in every state: eof/fail/bad bit preset, "
                      "null streambuf, 1- and 2-character get areas, ifstream on a file and on a directory, streambuf that throws, output with limited room")
@@ -215,7 +217,8 @@ def batches(rng, tier):
     yield Batch("files", ops, exhaustive=True,
                 note="file_size, open/open_exn (read, write), create_directory, create_directories_recursive, make_(recursive_)directory_range on: regular/empty "
                      "file, directory (empty, populated, with trailing slash), missing, dangling/valid/double symlink, self-loop and 2-cycle (ELOOP), link to a "
-                     "directory, fifo, name > NAME_MAX, path > PATH_MAX, component under a file (ENOTDIR), under a loop, missing parent, '', '.'")
+                     "directory, fifo, name > NAME_MAX, path > PATH_MAX, component under a file (ENOTDIR), under a loop, missing parent, '', '.', a name with blank / newline / "
+                     "non-UTF-8 bytes, relative paths (plain, './', 'dir/../', 'file/../'), a 5 GB sparse file")
     # ---- pure path helpers: all pathnames over {a . /}
     n = 7 if thorough else 5
     ws = words("a./", n)
